@@ -158,7 +158,7 @@ func libParsers(cfg *vh.Config, er *encRun) {
 	// integer-valued floats of magnitude < 10^5, both widths, both signs; plus neighbours outside the
 	// sub-domain (non-integers, 10^5 and above), on which the model must answer None
 	smallInts := []int64{0, 1, 2, 9, 10, 99, 100, 255, 256, 1023, 1024, 4095, 4096, 65535, 65536, 99999}
-	for i := 0; i < cfg.Scale(50, 3000); i++ {
+	for i := 0; i < cfg.Scale(50, 1000); i++ {
 		smallInts = append(smallInts, int64(r.Intn(100000)))
 	}
 	for _, n := range smallInts {
